@@ -82,7 +82,7 @@ def compile_driver(src, libdir, extra_flags="", name=None):
     h = hashlib.sha1()
     h.update(open(srcp, "rb").read())
     for hdr in sorted(os.listdir(HARNESS)):
-        if hdr.endswith(".hpp"):
+        if hdr.endswith(".hpp") or hdr.endswith(".cpp"):      # drivers may include one another
             h.update(open(os.path.join(HARNESS, hdr), "rb").read())
     h.update((flags + extra_flags + libdir).encode())
     out = os.path.join(libdir, "drv-%s-%s" % (name or os.path.basename(srcp).replace(".cpp", ""), h.hexdigest()[:12]))
